@@ -1479,7 +1479,7 @@ class Element(Mapping[str, Attribute]):
         # This is a (attr, index, uuid, line_num) tuple.
         fixups: list[tuple[Attribute, Optional[int], UUID, int]] = []
         # Ensure these reuse the same objects.
-        stubs: dict[UUID, StubElement] = collections.defaultdict(StubElement.stub)
+        stubs: dict[UUID, StubElement] = _StubDict()
 
         elements = []
 
@@ -2141,6 +2141,13 @@ class StubElement(Element):
             return '<Null Element>'
         else:
             raise AssertionError(self._type)
+
+
+class _StubDict(dict[UUID, StubElement]):
+    """Creates stub elements on demand, keeping the UUID that was looked up."""
+    def __missing__(self, uuid: UUID) -> StubElement:
+        stub = self[uuid] = StubElement.stub(uuid)
+        return stub
 
 
 # Constant for null elements.
